@@ -39,7 +39,8 @@ EXPLANATION = (
     'primitives are decoded with validation on. Decides these structural parts, not value '
     'behaviour.'
     ' R8 (imported from C06-R3): decoding a primitive refuses only by ValidationError -- base64/strptime failures are converted.'
-    ' R10 (condition drift): the 72 refusal sites of stone_validators / stone_serializers / stone_base raise under the canonical path conditions recorded in reference/conditions.json.')
+    ' R10 (condition drift): the 72 refusal sites of stone_validators / stone_serializers / stone_base raise under the canonical path conditions recorded in reference/conditions.json.'
+    ' RD (decision drift, stonelint.conddrift): the tests of the functions this property is anchored in (stonelint.ownership) are compared with reference/conditions.json; a relation, polarity or connective changed over the same operands, or an operand purely added or dropped, is a violation; re-spellings and new or removed tests are not claimed.')
 ASSUMPTIONS = [
     'the reading of bounds is the one the property quantifies with (bound-1, bound, bound+1: the '
     'bound itself is admissible); the language reference does not spell out inclusiveness',
@@ -553,6 +554,11 @@ def run(pm, ctx):
     conddrift.run(pm, ctx, 'C08-R10', 'runtime',
                   'each runtime refusal (ValidationError / AssertionError raise) happens under the '
                   'condition confirmed on the reference tree', 'raised')
+
+    from ..conddrift import run_decisions
+    from ..ownership import OWN
+    run_decisions(pm, ctx, 'C08-RD', OWN['C08'])
+
 
 def _anchoring(init_func, method):
     """Classify how the runtime compiles the pattern: 'whole' | 'prefix' | 'search' | '?'"""
